@@ -287,6 +287,7 @@ func namesTables(c *Ctx, required []string, exact bool, withDefaults bool) {
 		{"a parameter named like a package imported later", []addStep{{"ka", intF, ""}, {"x", leaf("ka"), ""}}, []int{1}},
 		{"a parameter named like a package imported earlier", []addStep{{"x", leaf("ka"), ""}, {"ka", intF, ""}}, []int{0}},
 		{"a parameter named like the package of its own type", []addStep{{"ka", leaf("ka"), ""}}, nil},
+		{"two unnamed values of a type named Float3 (numbering gives float31, float32)", []addStep{{"", func() ktype { return kNamedIn(kpath("kf"), "kf", "Float3", nil, nil) }, ""}, {"", func() ktype { return kNamedIn(kpath("kf"), "kf", "Float3", nil, nil) }, ""}}, nil},
 		{"a parameter named like a package, then an unnamed value whose default name is that package's name too", []addStep{{"kt", intF, ""}, {"", func() ktype { return kNamedIn(kpath("kt"), "kt", "Kt", nil, nil) }, ""}}, nil},
 		{"an unnamed value whose default name is its package's name, then a parameter named like that package", []addStep{{"", func() ktype { return kNamedIn(kpath("kt"), "kt", "Kt", nil, nil) }, ""}, {"kt", intF, ""}}, nil},
 		{"a result named like a package imported by a parameter", []addStep{{"x", leaf("ka"), ""}, {"ka", intF, "Out"}}, []int{0}},
@@ -383,6 +384,14 @@ func namesTables(c *Ctx, required []string, exact bool, withDefaults bool) {
 				clash = n
 			}
 		}
+		// ... and none is a predeclared identifier: inside the method body such a parameter shadows it (a
+		// numbered name can be one: float3 + 2)
+		shadow := ""
+		for _, n := range all {
+			if types.Universe.Lookup(n) != nil {
+				shadow = n
+			}
+		}
 		kept := true
 		for _, i := range sc.keep {
 			if all[i] != sc.steps[i].name+sc.steps[i].suffix {
@@ -395,6 +404,11 @@ func namesTables(c *Ctx, required []string, exact bool, withDefaults bool) {
 		}
 		sort.Strings(ql)
 		run.Check("G-ADDVAR/table", sc.key, pos, distinct && clash == "" && kept, fmt.Sprintf("%s: the variables are named %v, the imports qualified %v — want pairwise distinct, non-blank names, none equal to an import qualifier of the file, and written names kept where nothing collides with them", sc.key, all, ql))
+		if shadow != "" {
+			run.Check("G-ADDVAR/predeclared", sc.key, pos, false, fmt.Sprintf("%s: the variables are named %v — %s is a predeclared identifier: inside the method body (the call record's struct type, the stub's result declarations) it then denotes the parameter", sc.key, all, shadow))
+		} else {
+			run.Check("G-ADDVAR/predeclared", sc.key, pos, true, "")
+		}
 	}
 	// ---------------- an unnamed parameter is not named like a type its own type text spells without a
 	// qualifier (a type of the destination package): inside the method that name would denote the parameter
